@@ -6,7 +6,7 @@ import json, os, subprocess
 HERE = os.path.dirname(os.path.dirname(os.path.abspath(__file__)))
 
 BASELINE_OFF = ("cd /repo && GOFLAGS=-mod=mod GOPROXY=off GOSUMDB=off GOTOOLCHAIN=local "
-                "go test -vet=off -count=1 -timeout 25m ./...")
+                "go test -mod=mod -json -vet=off -count=1 -timeout 25m ./...")
 
 # id -> (category, technique, level text, level_note, design_ref)
 P = {
